@@ -133,7 +133,7 @@ func evalRun(cases []string, obs, oracle *common.Out) {
 					verdict = fmt.Sprintf("FAIL [C15] static score %d lies in the range reserved for mate scores", sa)
 				}
 			}
-			return a + " | " + b
+			return a + " | " + b + " | mir=ok"
 		})
 		if res == "panic" && poslib.NaiveInv(p) == "" && poslib.MaterialOK(p) {
 			verdict = "FAIL [C15] evaluation panics on a legal position"
